@@ -75,6 +75,12 @@ func c07cli(c *h.Ctx) {
 	for _, f := range []string{"raw", "prefixed", "cockpit"} {
 		xs = append(xs, xcase{[]string{"-o", f, "ansi-split", "ok1"}, "as ok1", false})
 	}
+	// global flags that change what is logged must not change what is reported
+	for _, q := range [][]string{{"-q"}, {"--quiet"}, {"-d"}, {"-q", "-o", "prefixed"}} {
+		xs = append(xs, xcase{append(append([]string{}, q...), "bad", "ok1"), "bad", true}, xcase{append(append([]string{}, q...), "pbad", "ok1"), "pc", true},
+			xcase{append(append([]string{}, q...), "ok1", "ok2"), "ok1 ok2", false}, xcase{append(append([]string{}, q...), "run", "ok1", "bad-before", "ok2"), "ok1", true},
+			xcase{append(append([]string{}, q...), "no-such-target", "ok1"), "", true})
+	}
 	xs = append(xs, xcase{[]string{"-o", "raw", "ptol", "ok1"}, "pc ok1", false}, xcase{[]string{"-o", "raw", "ptol", "pbad", "ok1"}, "pc", true}, xcase{[]string{"-o", "raw", "run", "ptol", "pbad", "ok1"}, "pc", true})
 	h.Par(len(xs), 8, func(i int) {
 		x := xs[i]
